@@ -7,6 +7,10 @@
      LOGON                 the counterparty sends its Logon (98=0, 108=<hb of the START>)
      M <type> [<tag>=<hex>,...]    the counterparty sends a message of this type with these body fields: it takes the
                                    counterparty's next number and arrives
+                                   (any type: application, 0 Heartbeat, 1 TestRequest, 3 Reject, 5 Logout, 4 an unsolicited
+                                   SequenceReset, and 2 = the counterparty's OWN ResendRequest [7=Begin,16=End] for the
+                                   session's messages -- whether and when it asks is a choice of the scenario; the session
+                                   then both requests and serves a resend if that message also reveals a gap)
      L <type> [<tag>=<hex>,...]    the same, but the message is LOST (sent while disconnected): it takes a number, the
                                    counterparty remembers it, the session never sees it
      X <bits>              decisions (0/1) consumed by the counterparty when it answers a ResendRequest:
